@@ -181,10 +181,15 @@ fn pristine_table(calls: &[Call]) -> Result<(Vec<String>, Vec<Option<String>>), 
                 let loc = if i % 3 == 0 { SKEW_LOCALES[i % 4] } else { LANG_LOCALES[calls[i].lang % 7] };
                 let r = match (call_in_child(&exe, &js, loc, "Asia/Tokyo"), call_in_child(&exe, &js, "C", "UTC")) {
                     (Ok((ra, sa)), Ok((rb, sb))) => {
-                        if ra != rb {
-                            Ok((ra.clone(), Some(format!("ENVDIFF\u{1}{loc}\u{1}{ra}\u{1}{rb}"))))
+                        if ra != rb || sa != sb {
+                            // result or stray output differs between the two environments
+                            let show = |r: &str, s: &Option<String>| match s {
+                                Some(x) => format!("{r} + output {:?}", x.chars().take(120).collect::<String>()),
+                                None => r.to_string(),
+                            };
+                            Ok((ra.clone(), Some(format!("ENVDIFF\u{1}{loc}\u{1}{}\u{1}{}", show(&ra, &sa), show(&rb, &sb)))))
                         } else {
-                            Ok((ra, sa.or(sb)))
+                            Ok((ra, sa))
                         }
                     }
                     (Err(e), _) | (_, Err(e)) => Err(e),
@@ -321,7 +326,7 @@ pub fn replay_c14(doc: &Value) -> i32 {
         let a = call_in_child(&exe, &js, envs.first().and_then(|v| v.as_str()).unwrap_or("C"), "Asia/Tokyo");
         let b = call_in_child(&exe, &js, envs.get(1).and_then(|v| v.as_str()).unwrap_or("C"), "UTC");
         return match (a, b) {
-            (Ok((ra, _)), Ok((rb, _))) if ra != rb => {
+            (Ok((ra, sa)), Ok((rb, sb))) if ra != rb || sa != sb => {
                 flush_and_code(&[format!("REPLAY property=C14 oracle=H4-environment-independence {ra:?} vs {rb:?}"), "REPLAY-RESULT violation-reproduced oracle=H4-environment-independence".to_string()], 1)
             }
             (Ok(_), Ok(_)) => flush_and_code(&["REPLAY-RESULT no-violation property=C14".to_string()], 0),
@@ -369,6 +374,7 @@ pub fn run_c14(cfg: &BatchCfg, corpus_size: usize, pristine_sample: usize) -> i3
 
     // corpus and reference table: every call in its own pristine process
     let calls = gen_corpus(cfg.seed, corpus_size);
+    let t_table = std::time::Instant::now();
     let (expected, stray) = match pristine_table(&calls) {
         Ok(x) => x,
         Err(e) => {
@@ -379,7 +385,7 @@ pub fn run_c14(cfg: &BatchCfg, corpus_size: usize, pristine_sample: usize) -> i3
     if let Some(i) = stray.iter().position(|s| s.as_deref().map(|x| x.starts_with("ENVDIFF")).unwrap_or(false)) {
         let parts: Vec<&str> = stray[i].as_deref().unwrap().split('\u{1}').collect();
         let detail = format!(
-            "call {} gives {:?} in a pristine process under LANG=LC_ALL={} TZ=Asia/Tokyo but {:?} under LANG=LC_ALL=C TZ=UTC: the result depends on the process environment, not only on the arguments",
+            "call {} gives {:?} in a pristine process under LANG=LC_ALL={} TZ=Asia/Tokyo, a clock that jumps ahead and every environment variable the library reads by name set to 1, but {:?} under LANG=LC_ALL=C TZ=UTC with those variables unset: the result or the output depends on the process environment, not only on the arguments",
             serde_json::to_string(&calls[i]).unwrap_or_default(),
             parts.get(2).unwrap_or(&""),
             parts.get(1).unwrap_or(&""),
@@ -421,6 +427,8 @@ pub fn run_c14(cfg: &BatchCfg, corpus_size: usize, pristine_sample: usize) -> i3
         let ok = report_violation(&mut lines, cfg.seed, 500_000 + i as u64, &single_call_case(&calls[i], &expected[i]), "H5-reentrancy", &detail);
         return fail(&lines, if ok { 1 } else { 2 });
     }
+    lines.push(format!("timing: pristine table {:.1}s", t_table.elapsed().as_secs_f64()));
+    let t_phase = std::time::Instant::now();
     // second history: all calls in ONE other process (fresh interpreters and a fresh thread per
     // call, reverse order); it must agree with the pristine table
     match child_reference(&calls, "ref") {
@@ -470,6 +478,8 @@ pub fn run_c14(cfg: &BatchCfg, corpus_size: usize, pristine_sample: usize) -> i3
         }
     }
 
+    lines.push(format!("timing: one-process reverse history {:.1}s", t_phase.elapsed().as_secs_f64()));
+    let t_phase = std::time::Instant::now();
     // process-level side effects other than output: environment variables and live threads
     let env_before: std::collections::BTreeMap<String, String> = std::env::vars_os()
         .map(|(k, v)| (k.to_string_lossy().into_owned(), v.to_string_lossy().into_owned()))
@@ -520,6 +530,8 @@ pub fn run_c14(cfg: &BatchCfg, corpus_size: usize, pristine_sample: usize) -> i3
         direct_mismatch = probe.execute(&full_history, &mut st).violation;
     }
 
+    lines.push(format!("timing: silence scan + forward history {:.1}s", t_phase.elapsed().as_secs_f64()));
+    let t_phase = std::time::Instant::now();
     // (b'') soak: up to 40 short calls, 66 000 rounds each, one thread, one interpreter set
     let (mut soak_c, mut soak_e) = soak_calls(&calls, &expected);
     // plus the ambiguity-annotation paths (English "o", French "neuf"), which keep per-call scratch state
@@ -539,6 +551,7 @@ pub fn run_c14(cfg: &BatchCfg, corpus_size: usize, pristine_sample: usize) -> i3
     if silence_hit.is_none() && direct_mismatch.is_none() {
         soak_hit = soak(&soak_c, &soak_e, soak_repeats);
     }
+    lines.push(format!("timing: soak {:.1}s", t_phase.elapsed().as_secs_f64()));
     let check = C14 { corpus: Corpus { calls: calls.clone(), expected: expected.clone() } };
     let outcome = if soak_hit.is_some() { None } else if silence_hit.is_none() && direct_mismatch.is_none() { Some(run_batch(&check, cfg)) } else { None };
     let captured = cap.stop();
